@@ -220,8 +220,20 @@ def gen_gate(ctx):
     gen = open(os.path.join(vlib.COQ, "Gen", "HttpGateGen.v")).read()
     code_spellings = [bytes(int(x, 16) for x in re.findall(r"x([0-9a-f]{2})", l.split("(*")[0])) for l in gen.split("\n") if l.startswith("    [")]
     ct_lists += [[s] for s in code_spellings if [s] not in ct_lists]
+    # one-byte edits of the accepted spellings (the oracle decides which of them are still accepted)
+    for _ in range(ctx.scale(300, 3000)):
+        v = bytearray(rand_case(rng, rng.choice(ACCEPTED)))
+        i = rng.randrange(len(v) + 1)
+        op = rng.random()
+        if op < 0.4 and i < len(v):
+            v[i] = rng.choice(b" ;=-/ajJ8\t\xe9_") if rng.random() < 0.5 else rng.randrange(32, 127)
+        elif op < 0.7:
+            v.insert(i, rng.choice(b" ;=-/x\t"))
+        elif i < len(v):
+            del v[i]
+        ct_lists.append([bytes(v)] + ([rng.choice(ACCEPTED)] if rng.random() < 0.2 else []))
     cases = []
-    for m in METHODS:
+    for m in METHODS + [b"POST"] * 5:
         for cts in ct_lists:
             fr = rng.choice([[("d", body)], cut(body, [rng.randint(0, len(body))]), [("d", b""), ("d", body)], []])
             cases.append({"method": m, "max": 1000, "cts": cts, "cls": rng.choice([[], [str(len(payload(fr))).encode()]]), "frames": fr, "tag": "gate"})
@@ -307,7 +319,7 @@ def run(ctx):
                 frames_differ = c["frames"] != ref_c["frames"]
                 cl_differ = c["cls"] != ref_c["cls"]
                 ct_differ = c["cts"] != ref_c["cts"]
-                if frames_differ and first_frame_sniff_class(c):
+                if frames_differ and first_frame_sniff_class(c) and r["rb"] == "malformed" and ref["rb"] != "malformed":
                     key = "first-frame-sniff"
                 elif frames_differ and not cl_differ and not ct_differ:
                     key = "chunking-changes-answer"
@@ -322,6 +334,27 @@ def run(ctx):
                 fail("oracle", key, d,
                          {"same_body_in_one_frame": "%s body=%s handlers=%s" % (ref["status"], bytes.fromhex(ref["body"].replace("-", "")).decode("latin1")[:120], ref["log"]),
                           "this_request": "%s body=%s handlers=%s" % (r["status"], bytes.fromhex(r["body"].replace("-", "")).decode("latin1")[:120], r["log"])})
+
+    # ---- corpus first: witnesses of past failures (corpus/C19.jsonl), each with the one-frame request of the same body
+    corpus = os.path.join(vlib.ROOT, "corpus", "C19.jsonl")
+    rows = [json.loads(l) for l in open(corpus) if l.strip()] if os.path.exists(corpus) else []
+    if rows:
+        cl = [r["line"] for r in rows] + [r["reference_line"] for r in rows]
+        ci, cm = vlib.run_lines([impl], cl), vlib.run_lines([model], cl)
+        for i, row in enumerate(rows):
+            ctx.count("corpus")
+            a, ref = parse_impl(ci[i]), parse_impl(ci[i + len(rows)])
+            ctx.record({"corpus": row["what"], "line": row["line"]}, ci[i], nontrivial=True)
+            for j in (i, i + len(rows)):
+                got = parse_impl(ci[j])
+                if got is None or got["status"] + " " + got["rb"] != cm[j].partition(" | ")[0]:
+                    old = cm[j].partition(" | ")[2]
+                    mine = ci[j] if got is None else got["status"] + " " + got["rb"]
+                    fail("diff", row["key"] if mine == old else "httpgate-model-differs", {"corpus": row["what"], "line": cl[j]},
+                         {"impl": mine, "model": cm[j]})
+            if a is None or ref is None or (a["status"], a["body"], a["log"]) != (ref["status"], ref["body"], ref["log"]):
+                fail("oracle", row["key"], {"corpus": row["what"], "line": row["line"], "reference_line": row["reference_line"]},
+                     {"same_body_in_one_frame": ci[i + len(rows)][:300], "this_request": ci[i][:300]})
 
     ri, rm = run_both(gate_cases)
     for c, a, b in zip(gate_cases, ri, rm):
